@@ -18,14 +18,21 @@ import (
 	"flag"
 	"fmt"
 	"hash/fnv"
+	"io"
 	"os"
+	"path/filepath"
 	"strconv"
 	"strings"
 	"time"
 
 	"github.com/thomasjungblut/go-sstables/recordio"
+	rProto "github.com/thomasjungblut/go-sstables/recordio/proto"
 	"github.com/thomasjungblut/go-sstables/simpledb"
+	dbproto "github.com/thomasjungblut/go-sstables/simpledb/proto"
+	"github.com/thomasjungblut/go-sstables/skiplist"
+	"github.com/thomasjungblut/go-sstables/sstables"
 	"github.com/thomasjungblut/go-sstables/wal"
+	"google.golang.org/protobuf/proto"
 )
 
 var crashChildModes = map[string]func(args []string) int{
@@ -463,18 +470,25 @@ func crashProbeMain(args []string) int {
 	dir := fs.String("dir", "", "database directory")
 	keys := fs.String("keys", "", "comma separated hex keys")
 	markfd := fs.Int("markfd", 0, "marker file descriptor (0 = none)")
+	abs := fs.Bool("abs", false, "print the abstract disk (fs.recover syntax) before Open and the comparison line after it")
+	nocompact := fs.Bool("nocompact", false, "skip the forced compaction cycle after the reads")
 	_ = fs.Parse(args)
 	go func() {
 		time.Sleep(60 * time.Second)
 		fmt.Println("open=err:timeout")
 		os.Exit(0)
 	}()
+	if *abs {
+		fmt.Println("abs " + crashAbstractDisk(*dir))
+	}
 	m := newCrashMarker(*markfd)
 	var db *simpledb.DB
 	m.line("B 0")
 	e := safely(func() error {
 		var err error
-		db, err = simpledb.NewSimpleDB(*dir, simpledb.DisableCompactions())
+		// the compaction options matter for the forced cycle below only: every table is a candidate
+		db, err = simpledb.NewSimpleDB(*dir, simpledb.DisableCompactions(), simpledb.CompactionFileThreshold(0),
+			simpledb.CompactionMaxSizeBytes(1<<62))
 		if err != nil {
 			return err
 		}
@@ -482,12 +496,14 @@ func crashProbeMain(args []string) int {
 	})
 	m.line("E 0 " + crashErrKind(e))
 	if e != nil {
+		if *abs {
+			fmt.Println("cmp open=err")
+		}
 		fmt.Println("open=" + crashErrKind(e))
 		return 0
 	}
-	var sb strings.Builder
-	sb.WriteString("open=ok")
-	m.line("B 1")
+	var keyList [][]byte
+	var hexKeys []string
 	if *keys != "" {
 		for _, hk := range strings.Split(*keys, ",") {
 			k, err := hex.DecodeString(hk)
@@ -495,6 +511,14 @@ func crashProbeMain(args []string) int {
 				fmt.Fprintln(os.Stderr, "crashprobe: bad key", hk)
 				return 3
 			}
+			keyList = append(keyList, k)
+			hexKeys = append(hexKeys, hk)
+		}
+	}
+	readAll := func(prefix string) (string, []string) {
+		var sb strings.Builder
+		var full []string
+		for i, k := range keyList {
 			var v []byte
 			ge := safely(func() error {
 				var err error
@@ -503,27 +527,250 @@ func crashProbeMain(args []string) int {
 			})
 			switch {
 			case ge == nil:
-				sb.WriteString(" " + hk + "=" + crashDigest(v))
+				sb.WriteString(" " + prefix + hexKeys[i] + "=" + crashDigest(v))
+				full = append(full, hex.EncodeToString(v))
 			case errors.Is(ge, simpledb.ErrNotFound):
-				sb.WriteString(" " + hk + "=-")
+				sb.WriteString(" " + prefix + hexKeys[i] + "=-")
+				full = append(full, "-")
 			default:
 				// no message: it carries the path of the (temporary) directory
 				kind := crashErrKind(ge)
 				if strings.HasPrefix(kind, "err:other") || strings.HasPrefix(kind, "err:panic") {
-					fmt.Fprintln(os.Stderr, "crashprobe: get", hk, kind)
+					fmt.Fprintln(os.Stderr, "crashprobe: get", hexKeys[i], kind)
 					kind = kind[:9]
 				}
-				sb.WriteString(" " + hk + "=!" + kind)
+				sb.WriteString(" " + prefix + hexKeys[i] + "=!" + kind)
+				full = append(full, "!"+kind)
 			}
 		}
+		return sb.String(), full
 	}
+	var sb strings.Builder
+	sb.WriteString("open=ok")
+	m.line("B 1")
+	line, full := readAll("")
+	sb.WriteString(line)
 	m.line("E 1 ok")
-	m.line("B 2")
+	if *abs {
+		names, _, _, _ := db.VerifTables()
+		var gens []string
+		for _, n := range names {
+			gens = append(gens, crashGenOf(n))
+		}
+		var wals []string
+		if entries, err := os.ReadDir(filepath.Join(*dir, simpledb.WriteAheadFolder)); err == nil {
+			for _, en := range entries {
+				if n, err := strconv.Atoi(strings.TrimSuffix(en.Name(), ".wal")); err == nil {
+					wals = append(wals, strconv.Itoa(n))
+				}
+			}
+		}
+		fmt.Printf("cmp open=ok tables=%s vals=%s wal=%s\n", strings.Join(gens, ";"), strings.Join(full, ","), strings.Join(wals, ";"))
+	}
+	if !*nocompact {
+		// what a recovery leaves behind must survive a compaction cycle over all tables: it succeeds and reads stay
+		m.line("B 2")
+		var sel []string
+		ce := safely(func() error {
+			var err error
+			sel, _, err = db.VerifCompactOnce()
+			return err
+		})
+		switch {
+		case ce != nil:
+			fmt.Fprintln(os.Stderr, "crashprobe: compaction:", ce)
+			sb.WriteString(" compact=" + crashErrKind(ce))
+		case len(sel) == 0:
+			sb.WriteString(" compact=none")
+		default:
+			sb.WriteString(fmt.Sprintf(" compact=ok:%d", len(sel)))
+		}
+		line, _ = readAll("after:")
+		sb.WriteString(line)
+		m.line("E 2 ok")
+	}
+	m.line("B 3")
 	ce := safely(func() error { return db.Close() })
-	m.line("E 2 " + crashErrKind(ce))
+	m.line("E 3 " + crashErrKind(ce))
 	sb.WriteString(" close=" + crashErrKind(ce))
 	fmt.Println(sb.String())
 	return 0
+}
+
+// gen number of a table directory name ("sstable_000000000000012" -> "12"), "?" when it is none
+func crashGenOf(name string) string {
+	name = filepath.Base(name)
+	if !strings.HasPrefix(name, simpledb.SSTablePrefix+"_") {
+		return "?"
+	}
+	n, err := strconv.ParseUint(name[len(simpledb.SSTablePrefix)+1:], 10, 64)
+	if err != nil {
+		return "?"
+	}
+	return strconv.FormatUint(n, 10)
+}
+
+// crashTableDirAbs: the <dir> of the fs.recover grammar for one table directory, computed with the real reader
+func crashTableDirAbs(path string) string {
+	// since /repo 2cc0c75 recovery discards a table directory whose metadata file exists and is empty without trying
+	// to load it: whether it would load (as a "version 0" table showing junk) cannot be observed any more
+	if info, err := os.Stat(filepath.Join(path, sstables.MetaFileName)); err == nil && info.Size() == 0 {
+		return "partial"
+	}
+	var cells []string
+	scanErr := false
+	e := safely(func() error {
+		reader, err := sstables.NewSSTableReader(sstables.ReadBasePath(path), sstables.ReadWithKeyComparator(skiplist.BytesComparator{}))
+		if err != nil {
+			return err
+		}
+		defer func() { _ = reader.Close() }()
+		it, err := reader.Scan()
+		if err != nil {
+			scanErr = true
+			return nil
+		}
+		for n := 0; n < 1000000; n++ {
+			k, v, err := it.Next()
+			if errors.Is(err, sstables.Done) {
+				break
+			}
+			if err != nil {
+				scanErr = true
+				return nil
+			}
+			cells = append(cells, hex.EncodeToString(k)+"="+gb(v))
+		}
+		return nil
+	})
+	if e != nil {
+		info, err := os.Stat(filepath.Join(path, sstables.MetaFileName))
+		if err != nil || info.Size() == 0 {
+			return "partial"
+		}
+		return "partialmeta"
+	}
+	if scanErr {
+		return "UNSCANNABLE" // loads, but its records cannot be listed: outside of what the grammar can say
+	}
+	return strings.Join(cells, ";")
+}
+
+// crashAbstractDisk: "tables=.. wal=.. comps=.. waldir=.." in the syntax of the Lean driver command fs.recover
+func crashAbstractDisk(dir string) string {
+	var tables, comps, wals, other []string
+	entries, err := os.ReadDir(dir)
+	if err != nil {
+		return "UNREADABLE"
+	}
+	waldir := 0
+	compID := 0
+	for _, en := range entries { // sorted by name
+		name := en.Name()
+		switch {
+		case en.IsDir() && name == simpledb.WriteAheadFolder:
+			waldir = 1
+		case en.IsDir() && strings.HasPrefix(name, simpledb.SSTableCompactionPathPrefix):
+			compID++
+			flag := "-"
+			_ = safely(func() error {
+				metaPath := filepath.Join(dir, name, simpledb.CompactionFinishedSuccessfulFileName)
+				if _, err := os.Stat(metaPath); err != nil {
+					return err
+				}
+				reader, err := rProto.NewReader(rProto.ReaderPath(metaPath))
+				if err != nil {
+					return err
+				}
+				defer func() { _ = reader.Close() }()
+				if err := reader.Open(); err != nil {
+					return err
+				}
+				meta := &dbproto.CompactionMetadata{}
+				if _, err := reader.ReadNext(meta); err != nil {
+					return err
+				}
+				var ins []string
+				for _, p := range meta.SstablePaths {
+					ins = append(ins, crashGenOf(p))
+				}
+				flag = strings.Join(ins, "+") + ">" + crashGenOf(meta.ReplacementPath)
+				return nil
+			})
+			comps = append(comps, fmt.Sprintf("%d:%s:%s", compID, crashTableDirAbs(filepath.Join(dir, name)), flag))
+		case en.IsDir() && strings.HasPrefix(name, simpledb.SSTablePrefix+"_") && crashGenOf(name) != "?":
+			tables = append(tables, crashGenOf(name)+":"+crashTableDirAbs(filepath.Join(dir, name)))
+		default:
+			other = append(other, name)
+		}
+	}
+	if waldir == 1 {
+		wentries, _ := os.ReadDir(filepath.Join(dir, simpledb.WriteAheadFolder))
+		for _, en := range wentries {
+			num, err := strconv.Atoi(strings.TrimSuffix(en.Name(), ".wal"))
+			if err != nil || en.IsDir() || !strings.HasSuffix(en.Name(), ".wal") {
+				other = append(other, "wal/"+en.Name())
+				continue
+			}
+			header, torn := "H", "C"
+			var muts []string
+			_ = safely(func() error {
+				reader, err := recordio.NewFileReaderWithPath(filepath.Join(dir, simpledb.WriteAheadFolder, en.Name()))
+				if err != nil {
+					header = "N"
+					return nil
+				}
+				defer func() { _ = reader.Close() }()
+				if err := reader.Open(); err != nil {
+					header = "N"
+					return nil
+				}
+				for {
+					rec, err := reader.ReadNext()
+					if errors.Is(err, io.EOF) && !errors.Is(err, io.ErrUnexpectedEOF) {
+						return nil
+					}
+					if err != nil {
+						torn = "T"
+						return nil
+					}
+					mut := &dbproto.WalMutation{}
+					if err := proto.Unmarshal(rec, mut); err != nil {
+						muts = append(muts, "UNPARSABLE")
+						continue
+					}
+					switch u := mut.Mutation.(type) {
+					case *dbproto.WalMutation_Addition:
+						k, v := u.Addition.KeyBytes, u.Addition.ValueBytes
+						if len(k) == 0 {
+							k, v = []byte(u.Addition.Key), []byte(u.Addition.Value)
+						}
+						muts = append(muts, "p."+hex.EncodeToString(k)+"."+hex.EncodeToString(v))
+					case *dbproto.WalMutation_DeleteTombStone:
+						k := u.DeleteTombStone.KeyBytes
+						if len(k) == 0 {
+							k = []byte(u.DeleteTombStone.Key)
+						}
+						muts = append(muts, "d."+hex.EncodeToString(k))
+					default:
+						muts = append(muts, "UNPARSABLE")
+					}
+				}
+			})
+			if header == "N" {
+				torn = "C"
+				if info, err := en.Info(); err == nil && info.Size() > 0 {
+					torn = "T"
+				}
+			}
+			wals = append(wals, fmt.Sprintf("%d:%s:%s:%s", num, header, torn, strings.Join(muts, ";")))
+		}
+	}
+	line := fmt.Sprintf("tables=%s wal=%s comps=%s waldir=%d", strings.Join(tables, ","), strings.Join(wals, ","), strings.Join(comps, ","), waldir)
+	if len(other) > 0 {
+		line += " OTHER=" + strings.Join(other, ",")
+	}
+	return line
 }
 
 // ---------------------------------------------------------------------------------------------
